@@ -5,20 +5,26 @@ re-checked with the sensed lock modes."""
 import json, os, time, concurrent.futures as cf
 from vlib import *
 
-FAMILIES = [  # name, procs, progs, cbsends, gated
-    ("p3", '"a", "b", "c"', "P3", '"process", "close", "reopen"', "TRUE"),
-    ("p3b", '"a", "b", "c"', "P3b", '"process", "close", "reopen"', "TRUE"),
-    ("p3n", '"a", "b", "c"', "P3", '"process", "close", "reopen"', "FALSE"),
-    ("d1", '"a"', "P1", '"close"', "FALSE"),
-    ("d2", '"a", "b"', "P2rs", '"process", "close"', "TRUE"),
-    ("d3", '"a", "b"', "P2ow", '"reopen"', "FALSE"),
+FAMILIES = [  # name, procs, progs, cbsends, gated, cbwrites
+    ("p3", '"a", "b", "c"', "P3", '"process", "close", "reopen"', "TRUE", ""),
+    ("p3b", '"a", "b", "c"', "P3b", '"process", "close", "reopen"', "TRUE", ""),
+    ("p3n", '"a", "b", "c"', "P3", '"process", "close", "reopen"', "FALSE", ""),
+    ("d1", '"a"', "P1", '"close"', "FALSE", ""),
+    ("d2", '"a", "b"', "P2rs", '"process", "close"', "TRUE", ""),
+    ("d3", '"a", "b"', "P2ow", '"reopen"', "FALSE", ""),
+    ("w1", '"a"', "P1s", '', "FALSE", '"process"'),              # a node registers something from Process
+    ("w2", '"a", "b"', "P2sw", '"process"', "FALSE", ""),       # nested Send vs a concurrent writer
+    ("w3", '"a", "b"', "P2sw", '', "FALSE", '"process"'),
+    ("f1", '"a", "b"', "P2f", '"process"', "FALSE", ""),        # failing precondition exits, then more calls
 ]
 
 
-def model(scr, fam, hold_close, hold_reopen, tag):
-    name, procs, progs, cbs, gated = fam
+def model(scr, fam, hold_close, hold_reopen, tag, hold_process="none", leak=False):
+    name, procs, progs, cbs, gated, cbw = fam
     cfg = ('CONSTANTS\n  Procs = {%s}\n  Progs <- %s\n  CbSends = {%s}\n  GatedLock = %s\n  HoldClose = "%s"\n  HoldReopen = "%s"\n'
-           'SPECIFICATION Spec\nINVARIANT LockSanity\nPROPERTY EventuallyAllReturn\nCHECK_DEADLOCK TRUE\n') % (procs, progs, cbs, gated, hold_close, hold_reopen)
+           '  HoldProcess = "%s"\n  CbWrites = {%s}\n  LeakOnFail = %s\n'
+           'SPECIFICATION Spec\nINVARIANT LockSanity\nPROPERTY EventuallyAllReturn\nCHECK_DEADLOCK TRUE\n') % (
+               procs, progs, cbs, gated, hold_close, hold_reopen, hold_process, cbw, "TRUE" if leak else "FALSE")
     return run_tlc(scr, "locks", "MCLocks", cfg, "%s-%s" % (name, tag), workers=2, timeout=600, heap="2g")
 
 
@@ -29,6 +35,8 @@ def run(prop, tier, seed, out):
         with cf.ThreadPoolExecutor(max_workers=6) as ex:
             f_ok = [(f, ex.submit(model, scr, f, "none", "none", "intended")) for f in FAMILIES]
             f_bad = [(f, ex.submit(model, scr, f, "W", "R", "pinned")) for f in FAMILIES if f[0] in ("d1", "d2", "d3")]
+            f_bad += [(f, ex.submit(model, scr, f, "none", "none", "holdproc", "R")) for f in FAMILIES if f[0] in ("w1", "w2", "w3")]
+            f_bad += [(f, ex.submit(model, scr, f, "none", "none", "leak", "none", True)) for f in FAMILIES if f[0] == "f1"]
             outp = scr.path("locks.json")
             t0 = time.time()
             p = run_vh(vh, ["locks-run", "-out", outp, "-reps", "1" if quick else "5"], timeout=1500)
@@ -51,7 +59,8 @@ def run(prop, tier, seed, out):
                 r = fu.result()
                 if r.violated != "deadlock":
                     raise Broken("Locks.tla (%s) with callbacks under the broker lock does not deadlock: the check is vacuous" % f[0])
-            out.notes.append("vacuity: with Close under the write lock / Reopen under the read lock the model deadlocks in scenarios d1, d2, d3")
+            out.notes.append("vacuity: with Close under the write lock / Reopen under the read lock the model deadlocks in scenarios d1, d2, d3; "
+                             "with Send keeping the read lock across Process in w1, w2, w3; with an error exit that keeps the write lock in f1")
             held = {}
             for r in results:
                 sc = r["scenario"]
@@ -62,6 +71,10 @@ def run(prop, tier, seed, out):
                         out.notes.append("scenario %s did not return once but returned on the second run" % sc["name"])
                         continue
                     out.violation("Broker call never returned: scenario %s; goroutines parked on Broker locks: %s" % (sc["name"], r.get("hung", "")[:400]), r)
+                if r.get("err", "").startswith("harness:"):
+                    raise Broken("locks harness assumption wrong: " + r["err"])
+                if r.get("err", "").startswith("RemovePipelineAndNodes after"):
+                    out.violation("after a call that failed its precondition the Broker misbehaves: scenario %s: %s" % (sc["name"], r["err"]), r)
                 if r.get("err", "").startswith("panic"):
                     out.violation("Broker call panicked: scenario %s: %s" % (sc["name"], r["err"]), r)
             if held and not out.violations:
@@ -70,7 +83,7 @@ def run(prop, tier, seed, out):
                 hr = "R" if held.get("reopen") else "none"
                 bad = []
                 for f in FAMILIES:
-                    r = model(scr, f, hc, hr, "sensed")
+                    r = model(scr, f, hc, hr, "sensed", "R" if held.get("process") or held.get("process-write") else "none")
                     if r.violated == "deadlock":
                         bad.append(f[0])
                 out.notes.append("node callbacks run under a Broker lock (%s); Locks.tla with these modes deadlocks in %s, but no real run hung" % (held, bad or "no scenario"))
